@@ -81,6 +81,13 @@ static void EvaluateAll(State& st) {
   }
 }
 
+// NUL-terminated copy in a heap block of exactly size()+1 bytes (ASan red zone right behind the terminator)
+struct ExactCStr {
+  char* p;
+  explicit ExactCStr(const string& s) : p((char*)malloc(s.size() + 1)) { memcpy(p, s.data(), s.size()); p[s.size()] = 0; }
+  ~ExactCStr() { free(p); }
+};
+
 static void RunOne(const string& mode, const string& in) {
   if (mode == "manifest") {
     State st;
@@ -147,16 +154,24 @@ static void RunOne(const string& mode, const string& in) {
   } else if (mode == "makeflags") {
     Jobserver::Config c;
     string err;
-    Jobserver::ParseMakeFlagsValue(in.c_str(), &c, &err);
+    string mf = in;
+    for (auto& ch : mf) if (ch == 0) ch = ' ';
+    ExactCStr z(mf);
+    Jobserver::ParseMakeFlagsValue(z.p, &c, &err);
     Jobserver::Config c2;
-    Jobserver::ParseNativeMakeFlagsValue(in.c_str(), &c2, &err);
+    Jobserver::ParseNativeMakeFlagsValue(z.p, &c2, &err);
   } else if (mode == "status") {
     BuildConfig config;
     config.verbosity = BuildConfig::QUIET;
     StatusPrinter sp(config);
     string fmt = in;
     for (auto& ch : fmt) if (ch == 0) ch = ' ';
-    sp.FormatProgressStatus(fmt.c_str(), 1234);
+    {
+      // an exactly sized heap copy: a read behind the terminating NUL is a sanitizer report, not a lucky hit in
+      // std::string's spare capacity (the real format comes from getenv())
+      ExactCStr z(fmt);
+      sp.FormatProgressStatus(z.p, 1234);
+    }
     string el = in;
     ElideMiddleInPlace(el, 8);
     string el2 = in + in + in;
